@@ -5,6 +5,7 @@ from cv import flow, rules, graph
 from cv.rules import events_of, order_after_success
 
 TITLE = "Archive files are write-once: backup never alters or removes existing files"
+TECHNIQUE = 'static analysis: constant-argument rule (CreateNew), sibling agreement of the three Protocol::write implementations (primitive flows into the creating call), provenance, who-may-remove'
 EXPLANATION = (
     "Decided structurally: (1) every Transport::write call site in lib+bin passes WriteMode::CreateNew, Overwrite is "
     "constructed nowhere outside tests, and Transport::write forwards the mode unchanged to the protocol; (2) each of "
@@ -158,7 +159,8 @@ def run(ck, w):
 
     # ---- 2. sibling agreement of the three Protocol::write implementations -----------------------------
     present = {k: v for k, v in IMPLS.items() if v in lib.bodies}
-    ck.floor("C07.2.n", "Protocol::write implementations analysed", len(present), 3)
+    n_impls = {"nodefault": 1, "s3": 2, "sftp": 2}.get(w.config, 3)
+    ck.floor("C07.2.n", "Protocol::write implementations analysed", len(present), n_impls)
     impl_names = set(g.trait_impls.get(("transport::protocol::Protocol", "write"), []))
     unknown = impl_names - set(IMPLS.values())
     o = ck.ob("C07.2.table", "every Protocol::write implementation is in the checked table")
@@ -336,12 +338,9 @@ def run(ck, w):
     else:
         for s in writers["index::write::IndexWriter::finish_hunk"]:
             fh = w.body("index::write::IndexWriter::finish_hunk")
-            orig = flow.origins(fh, s["rv"]["ops"][0]) if s["rv"]["rk"] == "use" else set()
-            adds = [x for x in orig if x[0] == "arith"]
-            ones = [x for x in orig if x[0] == "const" and x[1] == "int" and x[2] == "1"]
-            if not (adds and all(a[1].startswith("Add") for a in adds) and ones):
+            if not rules.is_increment_by_one(fh, s):
                 good = False
-                ck.fail(o, fh.name, "sequence update is not += 1", "sequence assigned from %s" % flow.origin_summary(orig))
+                ck.fail(o, fh.name, "sequence update is not += 1", "sequence is not incremented by exactly one")
     nw = w.raw("index::write::IndexWriter::new")
     init_ok = False
     for bb, j, s in rules.agg_sites(nw, "index::write::IndexWriter"):
